@@ -535,7 +535,13 @@ fn sc_position_roles_and_boundary(t: &mut Tracer) {
     w.pos_close(&b, "u-self", Some(coin(1008, lp.clone())), &[]); // amount-1 (1010-1-1)
     w.pos_close(&b, "u-self", Some(coin(1, lp2.clone())), &[]);
     w.pos_close(&b, "u-self", None, &[coin(1, "uom")]);
+    // the identifier as the user chose it, without the prefix it is stored under, names nothing
+    w.pos_close(&b, "self", Some(coin(1, lp.clone())), &[]);
+    w.pos_close(&b, "self", None, &[]);
+    w.pos_expand(&b, "self", &[coin(10, lp.clone())]);
+    w.pos_withdraw(&b, "self", Some(true), &[]);
     w.pos_close(&b, "u-self", None, &[]);
+    w.pos_withdraw(&b, "self", None, &[]);
     w.pos_close(&b, "u-self", None, &[]); // already closed
     w.pos_expand(&b, "u-self", &[coin(10, lp.clone())]); // closed: refused
     // withdraw before/at/after the unlock instant, by each role; u-self was closed at `now`, dur = 1 day
@@ -874,6 +880,29 @@ fn sc_config_update_shapes(t: &mut Tracer) {
     w.pos_withdraw(&b, "u-p", Some(true), &[]);
 }
 
+/// a farm past its last epoch that has not expired yet (unclaimed rewards, expiry a month away) is still a live farm: its owner
+/// shares the penalty - alone, and next to the owner of a running farm
+fn sc_emergency_with_ended_farm(t: &mut Tracer) {
+    let mut w = W::new(SysCfg::default(), 1, t, "emergency_with_ended_farm");
+    let lp = w.lps[0].clone();
+    let (o, b, c, d) = (w.user(0), w.user(1), w.user(2), w.user(3));
+    let f = w.fee_funds(&coin(8_000, "uweth"));
+    w.create_farm(&c, &lp, Some(1), Some(3), coin(8_000, "uweth"), Some("short".into()), &f);
+    for id in ["x", "y", "z"] {
+        w.pos_create(&b, Some(id.into()), 30 * DAY, None, &[coin(1_000_000, lp.clone())]);
+    }
+    w.pos_create(&d, Some("d".into()), 30 * DAY, None, &[coin(1_000_000, lp.clone())]);
+    w.advance(2 * DAY);
+    w.pos_withdraw(&b, "u-x", Some(true), &[]); // the farm is running
+    w.advance(3 * DAY);
+    w.pos_withdraw(&b, "u-y", Some(true), &[]); // ended two epochs ago, nothing claimed: live
+    let f2 = w.fee_funds(&coin(8_000, "uusdt"));
+    w.create_farm(&o, &lp, None, None, coin(8_000, "uusdt"), Some("second".into()), &f2);
+    w.advance(2 * DAY);
+    w.pos_withdraw(&b, "u-z", Some(true), &[]); // one running farm and one ended farm, two owners
+    w.claim(&d, None, &[]);
+}
+
 /// the emergency flag on positions that are already unlocked: at the expiry second, 12 hours and 11 days later - no penalty
 fn sc_emergency_flag_after_unlock(t: &mut Tracer) {
     let mut w = W::new(SysCfg::default(), 1, t, "emergency_flag_after_unlock");
@@ -1179,6 +1208,7 @@ pub fn run(rng: &mut StdRng, thorough: bool, t: &mut Tracer) {
     sc_alternating_lp_positions(t);
     sc_unlock_range_narrowed(t);
     sc_emergency_flag_after_unlock(t);
+    sc_emergency_with_ended_farm(t);
     sc_pool_manager_on_behalf(t);
     sc_instantiate_shapes(t);
     sc_config_update_shapes(t);
